@@ -24,18 +24,29 @@ func init() {
 			for k := 1; k <= 3; k++ {
 				jobs = append(jobs, Job{Pkg: "filterlist", Func: "verifC11Storage", Args: []int64{int64(k)}})
 			}
+			fileN := 3
+			if tier == "thorough" {
+				fileN = 5
+			}
+			for n := 0; n <= fileN; n++ {
+				for _, bl := range []int64{1, 2, 3} {
+					jobs = append(jobs, Job{Pkg: "filterlist", Func: "verifC11File", Args: []int64{int64(n), bl}})
+				}
+				jobs = append(jobs, Job{Pkg: "filterlist", Func: "verifC11FileScan", Args: []int64{int64(n)}})
+			}
 			return jobs
 		},
 		Setup: func(e *sym.Engine, st *sym.State, l *sym.Loaded) {
 			setupNetip(e, st, l)
 			e.Redirects[modPath+"/rules.NewRule"] = l.Pkgs[modPath+"/filterlist"].Func("verifNewRuleStub")
 		},
-		MustReach: []string{"c11.packing", "c11.scanned", "c11.storage", "c11.duplicate"},
+		MustReach: []string{"c11.packing", "c11.scanned", "c11.storage", "c11.duplicate", "c11.file", "c11.filescan"},
+		ContractStubs: "os.File is the engine's file model (content, offset, closed flag; a read may be short); a counterexample that needs a short read cannot be forced natively",
 		Bounds: map[string]string{
-			"quick":    "index packing for all int32 pairs (full width); in-memory list content of 0..4 symbolic bytes over {a, space, LF, CR} (the classification of a trimmed line is uninterpreted, so other bytes add nothing) scanned through the real RuleScanner / bufio.Reader / strings.Reader code and retrieved through the real RetrieveRule, IgnoreCosmetic on and off; CRLF variant; storage of 1..3 lists with arbitrary int32 ids (negative, zero, extreme) and an arbitrary offset below 2^31",
+			"quick":    "index packing for all int32 pairs (full width); in-memory list content of 0..4 symbolic bytes over {a, space, LF, CR} (the classification of a trimmed line is uninterpreted, so other bytes add nothing) scanned through the real RuleScanner / bufio.Reader / strings.Reader code and retrieved through the real RetrieveRule, IgnoreCosmetic on and off; CRLF variant; file-backed list vs in-memory list on the same symbolic content of 0..3 bytes with a read buffer of 1..3 bytes and short reads (RetrieveRule at every offset; scanned sequence); storage of 1..3 lists with arbitrary int32 ids (negative, zero, extreme) and an arbitrary offset below 2^31",
 			"thorough": "content up to 6 bytes",
 		},
-		Outside:     []string{"rules.NewRule's classification of a trimmed line (uninterpreted function of the line; the real parser is C12/C18/C03..)", "file-backed lists: os.File and its short reads are not modelled in this round (FileRuleList.RetrieveRule/readLine are not claimed)", "contents longer than the bound, in particular lines longer than the 4 KiB read buffer", "multi-byte UTF-8 and NUL bytes"},
+		Outside:     []string{"rules.NewRule's classification of a trimmed line (uninterpreted function of the line; the real parser is C12/C18/C03..)", "the real os.File and operating system (file model: content, offset, closed flag, reads that deliver one byte or everything)", "contents longer than the bound, in particular lines longer than the 4 KiB read buffer", "multi-byte UTF-8 and NUL bytes"},
 		Assumptions: []string{"bufio.Reader and strings.Reader are executed from their real bodies (not stubbed)"},
 		Rule:        "content bytes symbolic; line structure forks; one state per feasible path",
 	})
